@@ -75,7 +75,13 @@ pub fn c20(m: &mut Mon, w: &mut World, idx: usize) {
             "reexecution-differs"
         };
         let src = if a["msg"].as_str().unwrap_or("").contains("ArchiveError") { " [address source: rkyv ArchiveError]" } else { " [address source: other]" };
-        let d = if tag == "message-contains-memory-addresses" { format!("{d}{src}") } else { d };
+        let d = if tag == "message-contains-memory-addresses" {
+            format!("{d}{src}")
+        } else if tag == "which-cid-store-error-is-reported" {
+            format!("{d} [both outcomes are CID store verification errors, code {}]", crate::monitors::CID_STORE_VERIFICATION_CODE)
+        } else {
+            d
+        };
         m.report(w, Some(idx), "C20", tag, d);
     } else if w.runs[idx].out.reqs.len() + w.runs[idx].out.next.len() >= 2 || class(w.runs[idx].out.code) == 'F' {
         m.nontrivial.insert(hash64(&a.to_string()));
